@@ -485,6 +485,51 @@ def run_connect_level() -> dict[str, Any]:
                 viol.append((f"connect:{label}:lookup", f"addresses {list(hosts)} are literals but the OS resolver was asked {w.net.gai_calls}", {"hosts": list(hosts)}))
         finally:
             w.close()
+    # lookups that never answer: the start phase gives up after its resolve time-out with a connection error, and the socket step is
+    # never handed an empty address list (observed where the resolver's result is consumed)
+    from aioesphomeapi.connection import APIConnection, ConnectionParams
+    from aioesphomeapi.core import APIConnectionError
+    from aioesphomeapi.zeroconf import ZeroconfManager
+
+    for label, hosts in (("fqdn", ("dev9.example.com",)), ("local", ("porch9.local",)), ("bare", ("kitchen9",)),
+                         ("local+fqdn", ("porch9.local", "dev9.example.com")), ("two-fqdn", ("a9.example.com", "b9.example.com"))):
+        w2 = ResWorld()
+        orig = APIConnection.__dict__.get("_connect_socket_connect")
+        handed: list[Any] = []
+        try:
+            if orig is not None:
+                async def spy(conn_: Any, addrs: Any, _o: Any = orig) -> Any:
+                    handed.append(list(addrs))
+                    return await _o(conn_, addrs)
+
+                APIConnection._connect_socket_connect = spy  # type: ignore[method-assign]
+            w2.zlog.request_script = lambda info, zc, timeout: w2.loop.create_future()  # mDNS never answers
+            w2.net.gai_answer = None  # the OS resolver never answers
+            params = ConnectionParams(addresses=list(hosts), port=PORT, password=None, client_info="mc", keepalive=20.0,
+                                      zeroconf_manager=ZeroconfManager(), noise_psk=None, expected_name=None)
+            conn = APIConnection(params, None, False, None)
+            w2.spawn("start", conn.start_connection)
+            w2.drain()
+            t0 = w2.loop.time()
+            w2.run_timers(t0 + 400.0)
+            n += 1
+            r = w2.results.get("start")
+            d = {"hosts": list(hosts), "lookups": "hang"}
+            if r is None:
+                viol.append((f"connect:hang:{label}:never-ends", f"addresses {list(hosts)} whose lookups never answer: start_connection still pending after 400 s", d))
+            elif r[0] == "ok":
+                viol.append((f"connect:hang:{label}:succeeds", f"addresses {list(hosts)} whose lookups never answer: start_connection succeeded", d))
+            elif not isinstance(r[1], APIConnectionError):
+                viol.append((f"connect:hang:{label}:class", f"addresses {list(hosts)} whose lookups never answer: start_connection raised {type(r[1]).__name__}", d))
+            if any(not a for a in handed):
+                viol.append((f"connect:hang:{label}:empty-result", f"addresses {list(hosts)} whose lookups never answer: the resolve step returned an empty address "
+                             f"list to the socket step instead of raising", d))
+            if w2.net.sockets:
+                viol.append((f"connect:hang:{label}:socket", f"addresses {list(hosts)} whose lookups never answer: a socket was opened", d))
+        finally:
+            if orig is not None:
+                APIConnection._connect_socket_connect = orig  # type: ignore[method-assign]
+            w2.close()
     return {"part": "connect-level", "evals": n, "nontrivial": n, "viol": viol}
 
 
